@@ -394,3 +394,20 @@ def held_in(evs, upto, v, field):
             if a.endswith("->" + field) or a.endswith("." + field):
                 last = x.b
     return last is not None and last == v
+
+
+def heirs(ctx, name, unit, _seen=None):
+    """The functions that stand for `name` on the current tree: itself while it exists; otherwise, transitively, the
+    functions that called it on the pinned tree (spec/t_callers.json) - its body was inlined into them, or moved to a
+    helper that is analysed as part of them."""
+    prog = ctx.prog
+    if prog.func(name, unit) is not None and not prog.func(name, unit).helper:
+        return {name}
+    _seen = _seen or set()
+    if name in _seen:
+        return set()
+    _seen.add(name)
+    out = set()
+    for c in ctx.spec("t_callers")["callers"].get("%s:%s" % (unit, name), []):
+        out |= heirs(ctx, c, unit, _seen)
+    return out
